@@ -30,9 +30,12 @@ def build_bin(binname):
     return os.path.join(TARGET, "debug", binname), ""
 
 
-def run_driver(binpath, args, timeout=300):
+def run_driver(binpath, args, timeout=300, skip_known=True):
+    env = dict(os.environ)
+    if skip_known:
+        env["VERIF_KF_OPEN"] = ",".join(k["id"] for k in V.load_known_findings() if k.get("status") == "open")
     try:
-        p = subprocess.run([binpath] + args, capture_output=True, text=True, timeout=timeout)
+        p = subprocess.run([binpath] + args, capture_output=True, text=True, timeout=timeout, env=env)
     except subprocess.TimeoutExpired:
         return {"found": False, "detail": "driver timed out"}
     for line in reversed(p.stdout.strip().split("\n")):
@@ -91,7 +94,7 @@ def replay_file(path):
     if binpath is None:
         print("replay runner failed to build:\n" + err)
         return 2
-    res = run_driver(binpath, ["run", rec["driver"], str(rec["function"]), json.dumps(rec["inputs"])])
+    res = run_driver(binpath, ["run", rec["driver"], str(rec["function"]), json.dumps(rec["inputs"])], skip_known=False)
     print(json.dumps(res))
     if res.get("found"):
         print("REPRODUCED on the real crates: %s" % res.get("detail", ""))
